@@ -58,6 +58,14 @@ type Config struct {
 	// Imported: the memory is defined and exported by a second module "m" and imported by the
 	// guest (the compiler addresses an imported memory through a different path).
 	Imported bool `json:"imported,omitempty"`
+	// X adds a callee module whose exported functions (size, grow, loads, stores) are imported
+	// by the guest and reached through guest wrappers, so that memory.grow / memory.size /
+	// accesses execute in another module than the one the call was entered through:
+	//   "own":    module "b" with its own, distinct memory (BMin, BMax; same runtime limits);
+	//   "shared": the module "m" that defines the memory the guest imports (needs Imported).
+	X    string `json:"x,omitempty"`
+	BMin uint32 `json:"b_min,omitempty"`
+	BMax int64  `json:"b_max,omitempty"` // -1: none
 }
 
 // Op is one operation of a history, with explicit arguments.
@@ -79,7 +87,22 @@ type Case struct {
 }
 
 func (c Config) String() string {
-	return fmt.Sprintf("{engine=%s min=%d max=%d limit=%d capFromMax=%v alloc=%s shared=%v imported=%v}", c.Engine, c.Min, c.Max, c.Limit, c.CapMax, c.Alloc, c.Shared, c.Imported)
+	return fmt.Sprintf("{engine=%s min=%d max=%d limit=%d capFromMax=%v alloc=%s shared=%v imported=%v}", c.Engine, c.Min, c.Max, c.Limit, c.CapMax, c.Alloc, c.Shared, c.Imported) + c.xString()
+}
+
+func (c Config) xString() string {
+	switch c.X {
+	case "own":
+		return fmt.Sprintf("+callee module b{min=%d max=%d}", c.BMin, c.BMax)
+	case "shared":
+		return "+callee code in the memory's defining module"
+	}
+	return ""
+}
+
+// bCfg is the memory configuration of the callee module "b" (X == "own").
+func (c Config) bCfg() Config {
+	return Config{Engine: c.Engine, Min: c.BMin, Max: c.BMax, Limit: c.Limit, CapMax: c.CapMax, Alloc: c.Alloc}
 }
 
 func (c Config) limit() uint32 {
@@ -135,7 +158,12 @@ func (c Config) heapPages() uint32 {
 	return c.Min
 }
 
-func (c Config) heavy() bool { return c.heapPages() > heavyPage }
+func (c Config) heavy() bool {
+	if c.X == "own" && c.bCfg().heapPages() > heavyPage {
+		return true
+	}
+	return c.heapPages() > heavyPage
+}
 
 // cheapGrow: growing never copies or zeroes Go heap memory.
 func (c Config) cheapGrow() bool {
@@ -320,7 +348,44 @@ func tinyModule(c Config) []byte {
 func definerModule(c Config) []byte {
 	m := &wasmenc.Module{Mems: [][]byte{limits(c)}}
 	m.Exports = append(m.Exports, wasmenc.Export{Name: "mem", Kind: wasmenc.KMem, Idx: 0})
+	if c.X == "shared" {
+		addCalleeFuncs(m)
+	}
 	return m.Encode()
+}
+
+// calleeModule is module "b": its own memory plus the callee functions.
+func calleeModule(c Config) []byte {
+	m := &wasmenc.Module{Mems: [][]byte{limits(c.bCfg())}}
+	m.Exports = append(m.Exports, wasmenc.Export{Name: "mem", Kind: wasmenc.KMem, Idx: 0})
+	addCalleeFuncs(m)
+	return m.Encode()
+}
+
+type calleeFn struct {
+	name string
+	p, r []byte
+	body []byte
+}
+
+func calleeFns() []calleeFn {
+	i64 := wasmenc.I64
+	return []calleeFn{
+		{"size", nil, []byte{i32}, wasmenc.NewB().MemorySize().Bytes()},
+		{"grow", []byte{i32}, []byte{i32}, wasmenc.NewB().LocalGet(0).MemoryGrow().Bytes()},
+		// growsz(d) -> (size before, grow result, size after), all executing in the callee
+		{"growsz", []byte{i32}, []byte{i32, i32, i32}, wasmenc.NewB().MemorySize().LocalGet(0).MemoryGrow().MemorySize().Bytes()},
+		{"ld8", []byte{i32}, []byte{i32}, wasmenc.NewB().LocalGet(0).Mem(wasmenc.OpI32Load8U, 0, 0).Bytes()},
+		{"ld64", []byte{i32}, []byte{i64}, wasmenc.NewB().LocalGet(0).Mem(wasmenc.OpI64Load, 0, 0).Bytes()},
+		{"st8", []byte{i32, i32}, nil, wasmenc.NewB().LocalGet(0).LocalGet(1).Mem(wasmenc.OpI32Store8, 0, 0).Bytes()},
+		{"st64", []byte{i32, i64}, nil, wasmenc.NewB().LocalGet(0).LocalGet(1).Mem(wasmenc.OpI64Store, 0, 0).Bytes()},
+	}
+}
+
+func addCalleeFuncs(m *wasmenc.Module) {
+	for _, f := range calleeFns() {
+		m.ExportFunc(f.name, m.AddFunc(f.p, f.r, nil, f.body))
+	}
 }
 
 func fullModule(c Config) []byte {
@@ -331,7 +396,33 @@ func fullModule(c Config) []byte {
 		m.Mems = [][]byte{limits(c)}
 	}
 	hgrow := m.ImportFunc("env", "hgrow", []byte{i32}, []byte{i32})
+	xidx := map[string]uint32{}
+	if c.X != "" {
+		from := "b"
+		if c.X == "shared" {
+			from = "m"
+		}
+		for _, f := range calleeFns() {
+			xidx[f.name] = m.ImportFunc(from, f.name, f.p, f.r)
+		}
+	}
 	m.Exports = append(m.Exports, wasmenc.Export{Name: "mem", Kind: wasmenc.KMem, Idx: 0})
+	if c.X != "" {
+		// wrappers: the call is entered through the guest and reaches the callee's code
+		for _, f := range calleeFns() {
+			b := wasmenc.NewB()
+			for i := range f.p {
+				b.LocalGet(uint32(i))
+			}
+			m.ExportFunc("x"+f.name, m.AddFunc(f.p, f.r, nil, b.Call(xidx[f.name]).Bytes()))
+		}
+		// xmix(d, addr, v) -> (own memory.size, callee grow result, own memory.size, callee memory.size, own load8_u addr):
+		// own size and base are in use around a call that grows memory in the callee; before it the guest stores v at addr
+		m.ExportFunc("xmix", m.AddFunc([]byte{i32, i32, i32}, []byte{i32, i32, i32, i32, i32}, nil,
+			wasmenc.NewB().LocalGet(1).LocalGet(2).Mem(wasmenc.OpI32Store8, 0, 0).MemorySize().
+				LocalGet(0).Call(xidx["grow"]).MemorySize().Call(xidx["size"]).
+				LocalGet(1).Mem(wasmenc.OpI32Load8U, 0, 0).Bytes()))
+	}
 	m.ExportFunc("size", m.AddFunc(nil, []byte{i32}, nil, wasmenc.NewB().MemorySize().Bytes()))
 	m.ExportFunc("grow", m.AddFunc([]byte{i32}, []byte{i32}, nil, wasmenc.NewB().LocalGet(0).MemoryGrow().Bytes()))
 	// vgrow(d) -> (host grow result, memory.size afterwards): growth by the host in the middle of a guest function
@@ -436,6 +527,8 @@ type instance struct {
 	mem   api.Memory
 	alloc *allocator
 	fn    map[string]api.Function
+	bmod  api.Module // callee module "b" (X == "own")
+	bmem  api.Memory
 }
 
 var bg = context.Background()
@@ -484,6 +577,17 @@ func open(c Config, wasm []byte) (in *instance, err error, internal string) {
 		if dm, err = in.rt.CompileModule(bg, definerModule(c)); err == nil {
 			_, err = in.rt.InstantiateModule(ctx, dm, wazero.NewModuleConfig().WithName("m"))
 		}
+	}
+	if err == nil && c.X == "own" {
+		var bm wazero.CompiledModule
+		if bm, err = in.rt.CompileModule(bg, calleeModule(c)); err == nil {
+			in.bmod, err = in.rt.InstantiateModule(ctx, bm, wazero.NewModuleConfig().WithName("b"))
+		}
+		if err != nil {
+			in.close()
+			return nil, nil, "harness: callee module b was rejected: " + firstLine(err)
+		}
+		in.bmem = in.bmod.ExportedMemory("mem")
 	}
 	var cm wazero.CompiledModule
 	if err == nil {
@@ -564,6 +668,56 @@ type runner struct {
 	in *instance
 	m  *model
 	c  Config
+	mb *model // memory of the callee module b (X == "own")
+}
+
+// mx is the model of the memory the callee's code works on.
+func (r *runner) mx() *model {
+	if r.c.X == "own" {
+		return r.mb
+	}
+	return r.m
+}
+
+// bview is a runner whose content checks (window, dirty, afterGrow) look at the callee's memory.
+func (r *runner) bview() *runner {
+	if r.c.X != "own" {
+		return r
+	}
+	return &runner{in: &instance{cfg: r.c, mem: r.in.bmem}, m: r.mb, c: r.c}
+}
+
+// checkCalleeSizes: the callee's memory.size reached through the guest wrapper, entered
+// directly through b, and b's host Size()/Grow(0) agree with the model of that memory.
+func (r *runner) checkCalleeSizes(when string) *failure {
+	if r.c.X == "" {
+		return nil
+	}
+	mx := r.mx()
+	res, o := r.in.call("xsize")
+	if o.Kind != wz.KOK || len(res) != 1 {
+		return failf("%s: callee memory.size called through the guest failed: %v", when, o)
+	}
+	if uint32(res[0]) != mx.pages {
+		return failf("%s: memory.size executing in the callee module (called through the guest) = %d pages, model of that memory has %d pages", when, uint32(res[0]), mx.pages)
+	}
+	if r.c.X != "own" {
+		return nil
+	}
+	var bres []uint64
+	bres, o = wz.SafeCall(bg, r.in.bmod.ExportedFunction("size"))
+	if o.Kind != wz.KOK || len(bres) != 1 || uint32(bres[0]) != mx.pages {
+		return failf("%s: memory.size of module b entered directly = %v %v, model has %d pages", when, bres, o, mx.pages)
+	}
+	var sz, g0 uint32
+	var ok bool
+	if p := host(func() { sz = r.in.bmem.Size(); g0, ok = r.in.bmem.Grow(0) }); p != "" {
+		return failf("%s: host Size()/Grow(0) of module b's memory panicked: %s", when, p)
+	}
+	if sz != uint32(mx.size()) || !ok || g0 != mx.pages {
+		return failf("%s: host view of module b's memory: Size()=%d Grow(0)=(%d,%v), model has %d pages", when, sz, g0, ok, mx.pages)
+	}
+	return nil
 }
 
 // checkSizes: guest memory.size, host Size() and Grow(0) agree with the model.
@@ -587,7 +741,7 @@ func (r *runner) checkSizes(when string) *failure {
 	if !ok || g0 != r.m.pages {
 		return failf("%s: host Memory.Grow(0) = (%d,%v), model has %d pages", when, g0, ok, r.m.pages)
 	}
-	return nil
+	return r.checkCalleeSizes(when)
 }
 
 // window compares memory [a, a+n) (clipped to the model size) with the model through host Read.
@@ -772,6 +926,152 @@ func (r *runner) step(op Op) *failure {
 		}
 		if wok && op.D > 0 {
 			return r.afterGrow("after "+desc, before)
+		}
+	case "xgrow", "xgrowsz":
+		if r.c.X == "" {
+			return nil
+		}
+		mx := r.mx()
+		prevPages := mx.pages
+		want, wok := mx.grow(op.D)
+		r.noteGrow(true, wok, op.D)
+		wantR := uint32(0xffffffff)
+		if wok {
+			wantR = want
+		}
+		desc := fmt.Sprintf("memory.grow(%d) executing in the callee module (its memory: %d pages, bound %d) called through the guest (own memory %d pages)", op.D, prevPages, mx.bound, r.m.pages)
+		res, o := in.call(op.K, uint64(op.D))
+		if o.Kind != wz.KOK {
+			return failf("%s failed: %v", desc, o)
+		}
+		exp := []uint32{wantR}
+		if op.K == "xgrowsz" {
+			exp = []uint32{prevPages, wantR, mx.pages}
+		}
+		for i := range exp {
+			if i >= len(res) || uint32(res[i]) != exp[i] {
+				return failf("%s returned %v, expected %v", desc, res, exp)
+			}
+		}
+		if f := r.checkSizes("after " + desc); f != nil {
+			return f
+		}
+		if wok && op.D > 0 {
+			return r.bview().afterGrow("after "+desc, prevPages)
+		}
+	case "bhgrow":
+		if r.c.X != "own" {
+			return nil
+		}
+		prevPages := r.mb.pages
+		want, wok := r.mb.grow(op.D)
+		r.noteGrow(false, wok, op.D)
+		var got uint32
+		var ok bool
+		if p := host(func() { got, ok = in.bmem.Grow(op.D) }); p != "" {
+			return failf("host Memory.Grow(%d) on module b's memory panicked: %s", op.D, p)
+		}
+		if ok != wok || ok && got != want {
+			return failf("host Memory.Grow(%d) on module b's memory at %d pages (bound %d) returned (%d,%v), expected (%d,%v)", op.D, prevPages, r.mb.bound, got, ok, want, wok)
+		}
+		if ok && op.D > 0 {
+			if f := r.checkSizes("after host grow of module b's memory"); f != nil {
+				return f
+			}
+			return r.bview().afterGrow("after host grow of module b's memory", prevPages)
+		}
+	case "xmix":
+		if r.c.X == "" {
+			return nil
+		}
+		mx := r.mx()
+		desc := fmt.Sprintf("guest store8(%#x,%#x); memory.size; call callee memory.grow(%d); memory.size; call callee memory.size; load8_u(%#x) (own memory %d pages, callee's memory %d pages bound %d)", op.Off, byte(op.V), op.D, op.Off, m.pages, mx.pages, mx.bound)
+		res, o := in.call("xmix", uint64(op.D), uint64(op.Off), uint64(byte(op.V)))
+		if !m.inRange(uint64(op.Off), 1) {
+			if o.Kind != wz.KTrap || o.Detail != oob {
+				return failf("%s: expected an out-of-bounds trap at the store, got %v", desc, o)
+			}
+			return nil
+		}
+		m.set(uint64(op.Off), byte(op.V))
+		before, cprev := m.pages, mx.pages
+		want, wok := mx.grow(op.D)
+		r.noteGrow(true, wok, op.D)
+		wantR := uint32(0xffffffff)
+		if wok {
+			wantR = want
+		}
+		if o.Kind != wz.KOK || len(res) != 5 {
+			return failf("%s failed: %v", desc, o)
+		}
+		exp := []uint32{before, wantR, m.pages, mx.pages, uint32(byte(op.V))}
+		for i := range exp {
+			if uint32(res[i]) != exp[i] {
+				return failf("%s: result %d = %d, expected %d (all results %v, expected %v)", desc, i, int32(res[i]), int32(exp[i]), res, exp)
+			}
+		}
+		if f := r.checkSizes("after " + desc); f != nil {
+			return f
+		}
+		if wok && op.D > 0 {
+			return r.bview().afterGrow("after "+desc, cprev)
+		}
+	case "xload", "xstore":
+		if r.c.X == "" || (op.W != "8" && op.W != "64") {
+			return nil
+		}
+		mx := r.mx()
+		nb := uint64(1)
+		if op.W == "64" {
+			nb = 8
+		}
+		ea := uint64(op.Off)
+		desc := fmt.Sprintf("%s%s at %#x executing in the callee module (its memory: %d pages) called through the guest", op.K[1:], op.W, ea, mx.pages)
+		if op.K == "xload" {
+			res, o := in.call("xld"+op.W, ea)
+			if !mx.inRange(ea, nb) {
+				if o.Kind != wz.KTrap || o.Detail != oob {
+					return failf("%s: expected an out-of-bounds trap, got %v %v", desc, o, res)
+				}
+				return nil
+			}
+			if o.Kind != wz.KOK || len(res) != 1 {
+				return failf("%s: in range but failed: %v", desc, o)
+			}
+			var buf [8]byte
+			copy(buf[:], mx.read(ea, int(nb)))
+			want := binary.LittleEndian.Uint64(buf[:])
+			got := res[0]
+			if nb < 8 {
+				got = uint64(uint32(got))
+			}
+			if got != want {
+				return failf("%s: loaded %#x, model has %#x", desc, got, want)
+			}
+			return nil
+		}
+		v := op.V
+		if nb < 8 {
+			v = uint64(uint32(v))
+		}
+		_, o := in.call("xst"+op.W, ea, v)
+		if !mx.inRange(ea, nb) {
+			if o.Kind != wz.KTrap || o.Detail != oob {
+				return failf("%s: expected an out-of-bounds trap, got %v", desc, o)
+			}
+			return r.bview().window(desc+": after the trapping store", sat(ea, 16), 32+nb)
+		}
+		if o.Kind != wz.KOK {
+			return failf("%s: in range but failed: %v", desc, o)
+		}
+		var buf [8]byte
+		binary.LittleEndian.PutUint64(buf[:], v)
+		mx.write(ea, buf[:nb])
+		if f := r.bview().window(desc+": afterwards", sat(ea, 16), 32+nb); f != nil {
+			return f
+		}
+		if r.c.X == "own" { // the guest's own memory must not have been touched
+			return r.window(desc+": the guest's own memory afterwards", sat(ea, 16), 32+nb)
 		}
 	case "gsl":
 		desc := fmt.Sprintf("guest store8(%#x,%#x); memory.grow(%d); memory.size; load8_u(%#x); load8_u(%#x) at %d pages (bound %d)", op.Off, byte(op.V), op.D, op.Off2, op.Off, m.pages, m.bound)
@@ -1066,6 +1366,9 @@ func runCase(c Case) (f *failure, st *model, skipped bool) {
 	}
 	m := &model{pages: cfg.Min, bound: cfg.bound(), mem: map[uint32][]byte{}}
 	r := &runner{in: in, m: m, c: cfg}
+	if cfg.X == "own" {
+		r.mb = &model{pages: cfg.BMin, bound: cfg.bCfg().bound(), mem: map[uint32][]byte{}}
+	}
 	if f := r.checkSizes("right after instantiation"); f != nil {
 		f.msg = fmt.Sprintf("configuration %v: %s", cfg, f.msg)
 		return f, m, false
@@ -1093,6 +1396,13 @@ func runCase(c Case) (f *failure, st *model, skipped bool) {
 	if f := r.dirty("at the end of the history"); f != nil {
 		f.msg = fmt.Sprintf("configuration %v: %s", cfg, f.msg)
 		return f, m, false
+	}
+	if cfg.X == "own" {
+		if f := r.bview().dirty("at the end of the history (module b's memory)"); f != nil {
+			f.msg = fmt.Sprintf("configuration %v: %s", cfg, f.msg)
+			return f, m, false
+		}
+		m.okGrow, m.failGrow = m.okGrow+r.mb.okGrow, m.failGrow+r.mb.failGrow
 	}
 	// a few never-written places read as zero
 	for _, a := range []uint64{0, m.size() / 2, sat(m.size(), 64)} {
@@ -1277,12 +1587,41 @@ func genConfig(t *rapid.T) Config {
 	if c.verdict() == "accept" && rapid.IntRange(0, 3).Draw(t, "imported") == 0 {
 		c.Imported = true
 	}
+	if c.verdict() == "accept" {
+		switch x := rapid.IntRange(0, 5).Draw(t, "xmod"); {
+		case x <= 1 && c.Imported:
+			c.X = "shared"
+		case x <= 2 && !c.Imported:
+			// callee module with its own memory; its limits are valid under the same runtime limit
+			c.X = "own"
+			c.BMin = uint32(rapid.IntRange(0, 5).Draw(t, "b-min"))
+			if l := c.limit(); c.BMin > l {
+				c.BMin = l
+			}
+			switch rapid.IntRange(0, 4).Draw(t, "b-max-kind") {
+			case 0:
+				c.BMax = -1
+			case 1:
+				c.BMax = int64(c.BMin)
+			case 2:
+				c.BMax = int64(c.BMin) + int64(rapid.IntRange(1, 4).Draw(t, "b-room"))
+			case 3:
+				c.BMax = int64(rapid.SampledFrom([]uint32{7, 100, 65535, 65536}).Draw(t, "b-max"))
+			default:
+				c.BMax = int64(c.Min) // same maximum as the guest's minimum: mixed-up bounds show
+			}
+			if c.BMax >= 0 && c.BMax < int64(c.BMin) {
+				c.BMax = int64(c.BMin)
+			}
+		}
+	}
 	return c
 }
 
 type genState struct {
 	pages, bound uint32
 	written      []uint64
+	b            *genState // callee module's own memory (X == "own")
 }
 
 func (g *genState) size() uint64 { return uint64(g.pages) << 16 }
@@ -1375,15 +1714,58 @@ func genValue(t *rapid.T) uint64 {
 }
 
 func genOp(t *rapid.T, g *genState, c Config) Op {
-	kind := rapid.SampledFrom([]string{"ggrow", "ggrow", "hgrow", "hgrow", "vgrow", "vgrowld", "gsl", "gsize", "hsize",
-		"hread", "hread", "hread", "hwrite", "hwrite", "hwrite", "gload", "gload", "gstore", "gstore", "hview"}).Draw(t, "op")
+	kinds := []string{"ggrow", "ggrow", "hgrow", "hgrow", "vgrow", "vgrowld", "gsl", "gsize", "hsize",
+		"hread", "hread", "hread", "hwrite", "hwrite", "hwrite", "gload", "gload", "gstore", "gstore", "hview"}
+	if c.X != "" {
+		kinds = append(kinds, "xgrow", "xgrow", "xgrowsz", "xgrowsz", "xmix", "xmix", "xload", "xload", "xstore", "xstore", "xsize")
+		if c.X == "own" {
+			kinds = append(kinds, "bhgrow")
+		}
+	}
+	kind := rapid.SampledFrom(kinds).Draw(t, "op")
 	op := Op{K: kind}
+	gx := g // state of the memory the callee's code works on
+	if g.b != nil {
+		gx = g.b
+	}
 	noteGrow := func(d uint32) {
 		if uint64(g.pages)+uint64(d) <= uint64(g.bound) {
 			g.pages += d
 		}
 	}
+	noteGrowX := func(d uint32) {
+		if uint64(gx.pages)+uint64(d) <= uint64(gx.bound) {
+			gx.pages += d
+		}
+	}
 	switch kind {
+	case "xgrow", "xgrowsz", "bhgrow":
+		op.D = genDelta(t, gx, c)
+		noteGrowX(op.D)
+	case "xmix":
+		op.Off = genAddr(t, g, 1)
+		if g.pages > 0 && rapid.IntRange(0, 3).Draw(t, "in-range") != 0 {
+			op.Off = uint32(rapid.Uint64Range(0, g.size()-1).Draw(t, "addr"))
+		}
+		op.V = uint64(rapid.IntRange(1, 255).Draw(t, "marker"))
+		if uint64(op.Off) < g.size() {
+			op.D = genDelta(t, gx, c)
+			g.written = append(g.written, uint64(op.Off))
+			noteGrowX(op.D)
+		} else {
+			op.D = 1 // never executed: the store traps first
+		}
+	case "xload", "xstore":
+		op.W = rapid.SampledFrom([]string{"8", "64"}).Draw(t, "w")
+		n := uint64(1)
+		if op.W == "64" {
+			n = 8
+		}
+		op.Off = genAddr(t, gx, n)
+		if kind == "xstore" {
+			op.V = genValue(t)
+			gx.written = append(gx.written, uint64(op.Off))
+		}
 	case "ggrow", "hgrow", "vgrow":
 		op.D = genDelta(t, g, c)
 		noteGrow(op.D)
@@ -1519,6 +1901,9 @@ func genCase(t *rapid.T) (Case, bool) {
 		break
 	}
 	g := &genState{pages: c.Min, bound: c.bound()}
+	if c.X == "own" {
+		g.b = &genState{pages: c.BMin, bound: c.bCfg().bound()}
+	}
 	n := rapid.IntRange(1, 25).Draw(t, "nops")
 	cs := Case{Cfg: c}
 	for i := 0; i < n; i++ {
@@ -1567,6 +1952,15 @@ func labelsOf(c Case, m *model, skipped bool) (bool, []string) {
 	}
 	if c.Cfg.Imported {
 		l = append(l, "imported-memory")
+	}
+	if c.Cfg.X != "" {
+		l = append(l, "callee-module-"+c.Cfg.X+"-memory")
+		for _, op := range c.Ops {
+			if op.K == "xgrow" || op.K == "xgrowsz" || op.K == "xmix" {
+				l = append(l, "grow-executing-in-callee-module")
+				break
+			}
+		}
 	}
 	if len(m.mem) > 0 {
 		l = append(l, "with-written-pages")
